@@ -68,7 +68,70 @@ def parseDesc (s : String) : Option GateDesc :=
 def qiOfG (g : GInt) : QI := QI.ofGInt g
 def qiListStr (l : List QI) : String := ";".intercalate (l.map QI.toStr)
 
+
+/-- `re,im` as two binary64 bit patterns, decoded exactly (inf/nan rejected) -/
+def parseQIBits? (t : String) : Option QI :=
+  match t.splitOn "," with
+  | [a, b] => do
+      let x ← a.toNat?; let y ← b.toNat?
+      if x / 2 ^ 52 % 2048 = 2047 || y / 2 ^ 52 % 2048 = 2047 then none
+      else pure ⟨ratOfFloatBits x, ratOfFloatBits y⟩
+  | _ => none
+
+def parseQIBitsList? (s : String) : Option (Array QI) :=
+  if s = "-" || s = "" then some #[] else ((s.splitOn ";").mapM parseQIBits?).map List.toArray
+
+/-- `name:req:len` -/
+def parseShape (s : String) : Option (String × Bool × Nat) :=
+  match s.splitOn ":" with
+  | [nm, rq, len] => do let len ← len.toNat?; pure (nm, rq == "1", len)
+  | _ => none
+
+/-- `name=ints` -/
+def parseNamed (s : String) : Option (String × List Int) :=
+  match s.splitOn "=" with
+  | [nm, v] => do let v ← parseIntList? v; pure (nm, v)
+  | _ => none
+
+def handleExtra (args : List String) : Option String :=
+  match args with
+  | ["handoff", shapes, init, theta, grads] => some <| Id.run do
+      -- shapes `name:req:len|…` (registration order), init `name=ints|…` (current values), theta, grads `name=ints|…` (trainable only)
+      let some sh := (shapes.splitOn "|").mapM parseShape | return "bad-op"
+      let some ini := (init.splitOn "|").mapM parseNamed | return "bad-op"
+      let some theta := parseIntList? theta | return "bad-op"
+      let some gr := (if grads = "-" then some [] else (grads.splitOn "|").mapM parseNamed) | return "bad-op"
+      if ini.length ≠ sh.length then return "bad-op"
+      let ps : ParamList Int := (sh.zip ini).map fun p => (p.1.1, p.1.2.1, p.2.2)
+      if (ps.zip sh).any (fun p => p.1.2.2.length ≠ p.2.2.2) then return "bad-op"
+      if theta.length ≠ (getFlat ps).length then return "bad-op"
+      let after := afterSet ps theta
+      let gps : ParamList Int := sh.map fun p => (p.1, p.2.1, ((gr.find? fun g => g.1 == p.1).map (·.2)).getD [])
+      let vals := "|".intercalate (after.map fun p => s!"{p.1}={intListStr p.2.2}")
+      return s!"{vals} {intListStr (getFlat gps)} {intListStr (getFlat after)}"
+  | ["sylvf", m, r, s, v, g] => some <| Id.run do
+      let some m := m.toNat? | return "bad-op"
+      let some r := r.toNat? | return "bad-op"
+      let some sA := parseQIBitsList? s | return "bad-op"
+      let some v := parseQIBitsList? v | return "bad-op"
+      let some g := parseQIBitsList? g | return "bad-op"
+      if sA.size ≠ m || v.size ≠ m * m || g.size ≠ m * m then return "bad-op"
+      let z : QI := 0
+      if (List.range m).any (fun a => (List.range m).any fun b => a ≠ b && sA.getD a z == z && sA.getD b z == z) then
+        return "nan"
+      let V : Nat → Nat → QI := fun i j => v.getD (i * m + j) 0
+      let step (sG : (Nat → QI) × Array QI) : (Nat → QI) × Array QI :=
+        let Gf : Nat → Nat → QI := fun i j => sG.2.getD (i * m + j) 0
+        let X := sylvStep m V sG.1 Gf
+        (fun a => sG.1 a * sG.1 a, ((List.range m).flatMap fun i => (List.range m).map fun j => X i j).toArray)
+      let res := (List.range r).foldl (fun acc _ => step acc) ((fun a => sA.getD a 0), g)
+      return qiListStr res.2.toList
+  | _ => none
+
 def handle (args : List String) : String :=
+  match handleExtra args with
+  | some r => r
+  | none =>
   match args with
   | ["gg", n, t, u, qc, g] => Id.run do
       let some n := n.toNat? | return "bad-op"
